@@ -1,16 +1,29 @@
 #!/usr/bin/env python3
-"""Prints the markdown table of seeded changes (seeded/*/meta.json) and what the checks reported for each."""
-import glob, json, os
+"""Prints the markdown table of seeded changes (seeded/*/meta.json) and what the checks reported for each;
+with --update it replaces the table between the MATRIX markers of DESIGN.md."""
+import glob, json, os, re, sys
 rows = []
+own = tot = 0
 for d in sorted(glob.glob("/verif/seeded/*")):
     m = json.load(open(os.path.join(d, "meta.json")))
     name = os.path.basename(d)
+    prop = name.split("-")[0]
     res = m.get("checks_run", {})
     caught = [k for k, v in res.items() if v["result"] == "CAUGHT"]
-    missed = [k for k, v in res.items() if v["result"] == "MISSED"]
+    missed = [k for k, v in res.items() if v["result"] != "CAUGHT"]
+    tot += 1
+    own += prop in caught
     s = m.get("summary", "").replace("\n", " ").replace("|", "/")
-    rows.append("| %s | %s | %s | %s | %s |" % (name, s[:230] + ("..." if len(s) > 230 else ""), m.get("needs", "").replace("\n", " ").replace("|", "/")[:160],
-                                              ", ".join(caught) or "-", ", ".join(missed) or "-"))
-print("| seeded change | what it does | needs | caught by (quick tier) | not caught by |")
-print("|---|---|---|---|---|")
-print("\n".join(rows))
+    files = ",".join(m.get("files_changed", m.get("files", []))) if isinstance(m.get("files_changed", m.get("files", [])), list) else str(m.get("files_changed"))
+    rows.append("| %s | %s | %s | %s | %s |" % (name, files, s[:150] + (" ..." if len(s) > 150 else ""), ", ".join(caught) or "-", ", ".join(missed) or "-"))
+table = "| change | files | what it does (see seeded/<id>/meta.json) | caught by | run but not caught by |\n|---|---|---|---|---|\n" + "\n".join(rows)
+summary = "%d seeded changes, %d reported by the check of the property they were written against, %d by at least one check" % (
+    tot, own, sum(1 for r in rows if r.split("|")[4].strip() != "-"))
+if "--update" in sys.argv:
+    p = "/verif/DESIGN.md"
+    s = open(p).read()
+    s = re.sub(r"<!-- MATRIX-BEGIN -->.*<!-- MATRIX-END -->", lambda _: "<!-- MATRIX-BEGIN -->\n" + summary + "\n\n" + table + "\n<!-- MATRIX-END -->", s, flags=re.S)
+    open(p, "w").write(s)
+print(summary)
+if "--update" not in sys.argv:
+    print(table)
